@@ -117,6 +117,7 @@ func apiCalls() []apiCall {
 func TestC28(t *testing.T) {
 	r := rt.Start(t, "C28")
 	leakIsViolation = "C28"
+	r.DeadlockIsViolation = true
 	calls := apiCalls()
 	var behaviours []gwBehaviour
 	behaviours = append(behaviours, gwBehaviour{kind: "normal"})
